@@ -64,8 +64,8 @@ Ix == [ v |-> v, oidlen |-> oid, len |-> N(len), fan |-> ExpectedFan(Es(firsts, 
         crcs |-> [ i \in DOMAIN firsts |-> <<0, i>> ], o32 |-> o32, o64 |-> o64,
         packsum |-> TRUE, idxsum |-> TRUE, hdr |-> IF v = 3 THEN <<1, 20>> ELSE <<>> ]
 
-Lemma ==
-    ~refuse =>
-       /\ IdxLayout(Ix) = <<>>
-       /\ \A i \in DOMAIN firsts : IdxOffset(Ix, i) = offs[i]
+LemmaOn(ix) ==
+    /\ IdxLayout(ix) = <<>>
+    /\ \A i \in DOMAIN firsts : IdxOffset(ix, i) = offs[i]
+Lemma == ~refuse => LemmaOn(Ix)
 =============================================================================
